@@ -266,7 +266,7 @@ From PUN Require Import Base.Num.
 """
 
 
-def run_coq_cases(pid, chunks, requires, timeout=900, jobs=8):
+def run_coq_cases(pid, chunks, requires, timeout=900, jobs=8, scope="float_scope"):
     """chunks: list of Coq texts each defining `verdicts : list nat` (0 exact, 1 rounded, >=2 disagree).
     Returns (n_exact, n_rounded, [global indices of disagreements], log)."""
     os.makedirs(os.path.join(COQ, "Cases"), exist_ok=True)
@@ -275,7 +275,7 @@ def run_coq_cases(pid, chunks, requires, timeout=900, jobs=8):
     for k, (text, ncases) in enumerate(chunks):
         name = f"Cases/K{tag}_{k}.v"
         with open(os.path.join(COQ, name), "w") as f:
-            f.write(CASE_HEADER + requires + "\nOpen Scope float_scope.\n" + text +
+            f.write(CASE_HEADER + requires + f"\nOpen Scope {scope}.\n" + text +
                     "\nEval vm_compute in (summary verdicts).\n")
         names.append((name, ncases))
     procs = []
